@@ -2,6 +2,7 @@ import Operon.Lemmas.C02
 import Operon.Lemmas.C02Logic
 import Operon.Lemmas.C02Tool
 import Operon.Lemmas.MitoBox
+import Operon.Model.MitoText
 import Operon.Gen.MitoFacts
 /-!
 # C02 — the safe evaluator computes the value Python computes on the allowed subset
@@ -497,6 +498,93 @@ example : (krebs Gen.tables envInt (.boolop .and [.name "true", .name "pi"])).2 
 /-- `c02_entry_point_refines`: a success result on the auto-detected logic pathway -/
 example : metabolize Gen.tables envInt ⟨10000, true, false, [], none, true, true, true⟩ false .krebs
     ⟨4, some (.name "true"), none, false⟩ none = ([], .result true (some (.bool true)) false (some .krebs)) := by rfl
+
+/-! ### The value of the expression the CALLER wrote (`Model/MitoText.lean`)
+
+Everything above speaks about `inp.parsed` — CPython's reading of the string the engine's readers were handed.  The
+property speaks about the expression the caller wrote.  `metabolizeText` puts the step between the two into the model
+(`PreKind`: the readers see the caller's text, or `f` of it, for an arbitrary `f`). -/
+
+/-- An entry point that hands its readers the caller's text: whenever the caller receives a success, its value is
+    Python's value of the text THE CALLER WROTE (math: compile-then-evaluate of the parser's reading `rd text` with exactly
+    the allow-listed names, same interactions; logic: `bool` of it; tool: Python's evaluation of the tool call; transform: a
+    display of literals is itself) — for every set of texts, every reader, every pathway heuristic, every container
+    behaviour the model vouches for. -/
+theorem c02_value_is_pythons_value_of_the_given_text {Text : Type} (rd : Text → Inp) (detect : Text → Pathway)
+    (f : Text → Text) (T : Tables) (env : Env) (hT : TablesSound T) (hc : CmpReturnsBool env) (cfg : Cfg) (box : Box)
+    (latched : Bool) (text : Text) (forced : Option Pathway) (tr : List Act) (v : Val) (r : Bool) (p : Pathway)
+    (h : metabolizeText rd detect .identity f T env cfg box latched text forced = (tr, .result true (some v) r (some p))) :
+    (p = .glycolysis → ∃ e, (rd text).parsed = some e ∧ (pyRun T.names env e).2 = .ok v ∧ tr = (pyRun T.names env e).1) ∧
+    (p = .krebs → ∃ e w t, (rd text).parsed = some e ∧ (pyRun (namesB T.names) (envB env) e).2 = .ok w ∧
+        (truthyR env w).2 = .ok t ∧ v = .bool t) ∧
+    (p = .oxidative → ∃ e, (rd text).parsed = some e ∧ pyToolRun T.names env cfg.tools e = (tr, .ok v)) ∧
+    (p = .beta → ∀ e w, (rd text).parsed = some e → litEval e = some w → (rd text).beta = litEval e →
+        v = w ∧ pyRun T.names env e = ([], .ok v) ∧ tr = []) := by
+  have h' : metabolizeD T env cfg box latched (detect text) (rd text) forced = (tr, .result true (some v) r (some p)) := h
+  obtain ⟨g1, g2⟩ := c02_delivered_value_is_pythons T env hT hc cfg box latched (detect text) (rd text) forced tr v r p h'
+  obtain ⟨g3, g4⟩ := c02_delivered_tool_and_literal_values_are_pythons T env hT hc cfg box latched (detect text) (rd text)
+    forced tr v r p h'
+  exact ⟨g1, g2, g3, g4⟩
+
+/-- The entry points of the CURRENT source hand their readers the caller's text (E1: the real `metabolize` /
+    `digest_glucose` driven with string literals containing every code point, the fragments a text preprocessor would
+    rewrite and spellings Python refuses, a spy on the parser entry points; by `decide` over the fact). -/
+theorem c02_current_source_reads_the_given_text : Gen.preKind = .identity := by decide
+
+/-- … so on the engine as it stands, whatever rewriting `f` one may think of is not applied: the caller's success carries
+    Python's value of the text the caller wrote (math / logic), with the tables, containers and reader of the current
+    source. -/
+theorem c02_current_source_value_is_pythons_value_of_the_given_text {Text : Type} (rd : Text → Inp)
+    (detect : Text → Pathway) (f : Text → Text) (env : Env) (hc : CmpReturnsBool env) (cfg : Cfg) (latched : Bool)
+    (text : Text) (forced : Option Pathway) (tr : List Act) (v : Val) (r : Bool) (p : Pathway)
+    (h : metabolizeText rd detect Gen.preKind f Gen.tables env cfg Gen.box latched text forced
+          = (tr, .result true (some v) r (some p))) :
+    (p = .glycolysis → ∃ e, (rd text).parsed = some e ∧ (pyRun Gen.tables.names env e).2 = .ok v) ∧
+    (p = .krebs → ∃ e w t, (rd text).parsed = some e ∧ (pyRun (namesB Gen.tables.names) (envB env) e).2 = .ok w ∧
+        (truthyR env w).2 = .ok t ∧ v = .bool t) := by
+  rw [c02_current_source_reads_the_given_text] at h
+  obtain ⟨g1, g2, _, _⟩ := c02_value_is_pythons_value_of_the_given_text rd detect f Gen.tables env c02_tables_match_python
+    hc cfg Gen.box latched text forced tr v r p h
+  refine ⟨fun hp => ?_, g2⟩
+  obtain ⟨e, he, hv, _⟩ := g1 hp
+  exact ⟨e, he, hv⟩
+
+/-- Literal contents reach the caller as written: when the caller's text reads as ONE constant `c` (a string literal, a
+    number), an entry point that reads the given text answers the math pathway with exactly `c`, nothing executed. -/
+theorem c02_given_literal_is_returned_as_written {Text : Type} (rd : Text → Inp) (detect : Text → Pathway)
+    (f : Text → Text) (T : Tables) (env : Env) (hT : TablesSound T) (hc : CmpReturnsBool env) (cfg : Cfg) (box : Box)
+    (latched : Bool) (text : Text) (forced : Option Pathway) (tr : List Act) (v c : Val) (r : Bool)
+    (hlit : (rd text).parsed = some (.const c))
+    (h : metabolizeText rd detect .identity f T env cfg box latched text forced
+          = (tr, .result true (some v) r (some .glycolysis))) :
+    v = c ∧ tr = [] := by
+  obtain ⟨g1, _, _, _⟩ := c02_value_is_pythons_value_of_the_given_text rd detect f T env hT hc cfg box latched text forced
+    tr v r .glycolysis h
+  obtain ⟨e, he, hv, ht⟩ := g1 rfl
+  rw [hlit] at he
+  cases he
+  simp [pyRun, dupAnywhere, pyEval, R.pure] at hv ht
+  exact ⟨hv.symm, ht⟩
+
+/-- The shape of the seeded change "typographic operators are translated to ASCII before parsing" is expressible, and
+    `Gen.preKind` is what rules it out: two texts (`'×'` and `'*'`, read as two different constants), a rewriting that
+    maps the first to the second — the caller who wrote the first receives a success carrying the value of the second,
+    which is NOT Python's value of what was written. -/
+theorem c02_rewritten_text_delivers_another_value_witness :
+    ∃ (rd : Bool → Inp) (f : Bool → Bool) (cfg : Cfg),
+      (metabolizeText rd (fun _ => .glycolysis) .rewrites f Gen.tables envInt cfg Gen.box false false none).2
+        = .result true (some (.h 2)) false (some .glycolysis) ∧
+      (pyRun Gen.tables.names envInt (.const (.h 1))).2 = .ok (.h 1) ∧
+      (rd false).parsed = some (.const (.h 1)) ∧
+      (metabolizeText rd (fun _ => .glycolysis) .identity f Gen.tables envInt cfg Gen.box false false none).2
+        = .result true (some (.h 1)) false (some .glycolysis) :=
+  ⟨fun b => ⟨3, some (.const (.h (if b then 2 else 1))), none, false⟩, fun _ => true,
+   ⟨10000, true, false, [], none, true, true, true⟩, rfl, rfl, rfl, rfl⟩
+
+/-- `c02_value_is_pythons_value_of_the_given_text`: texts = strings, the reader reads `pi` -/
+example : metabolizeText (fun (_ : String) => (⟨2, some (.name "pi"), none, false⟩ : Inp)) (fun _ => .glycolysis) Gen.preKind
+    (fun s => s ++ "!") Gen.tables envInt ⟨10000, true, false, [], none, true, true, true⟩ Gen.box false "pi" none
+    = ([.lookup "pi"], .result true (some (.h 1)) false (some .glycolysis)) := by rfl
 
 /-- `c02_transform_literal_refines`: `["a", (1, 2)]` is a display of literals and the transform pathway returns it -/
 example : litEval (.list [.const (.h 7), .tuple [.const (.h 1), .const (.h 2)]]) = some (.list [.h 7, .tuple [.h 1, .h 2]]) ∧
